@@ -148,6 +148,28 @@ impl Prop for C08 {
             cfg.unset("diff-highlight");
             let mut co = color::gen_opts(t);
             co.ctx_reset = false;
+            // a CRLF file: every hunk line ends in CR (git writes it after the reset when it
+            // colours); some lines also carry a carriage return inside
+            let mut plain_lines = plain_lines;
+            let mut plain = plain;
+            if t.chance(1, 4) && !case.sections().iter().any(|s| s.kind == SK::SubmoduleShort) {
+                co.crlf = Some(t.coin());
+                for l in plain_lines.iter_mut() {
+                    if let Role::Hunk { .. } = l.role {
+                        // (the marker column stays, also on an otherwise empty line)
+                        let keep = l.text.chars().next().map(|c| c.len_utf8()).unwrap_or(0);
+                        let mut s = format!("{}{}", &l.text[..keep], l.text[keep..].trim_end_matches(|c| c == ' ' || c == '\t'));
+                        if s.chars().count() > 4 && t.chance(1, 3) {
+                            let at = s.char_indices().nth(1 + t.below(s.chars().count() - 2)).map(|(i, _)| i).unwrap_or(s.len());
+                            s.insert(at, '\r');
+                        }
+                        s.push('\r');
+                        l.text = s;
+                    }
+                }
+                plain = lines_to_bytes(&plain_lines, true);
+                ctx.class("crlf-file");
+            }
             let col_lines = color::colorize(&plain_lines, &co);
             let coloured = lines_to_bytes(&col_lines, true);
             let raw_commit = !cfg.has("commit-style");
